@@ -203,7 +203,7 @@ def feats_of(case, ref):
         phase = "buffered"
     return {"dir": case["dir"], "proto": case["proto"], "framing": case["framing"], "L": case["L"], "S": case["S"],
             "store": bool(case["store"]), "addon": case["addon"], "phase": phase, "emits_empty_piece": emits_empty,
-            "expect100": bool(case.get("expect"))}
+            "expect100": bool(case.get("expect")), "client_window": "small" if case.get("window") else "default"}
 
 
 def make_policy(case):
@@ -354,7 +354,13 @@ def drive_h1(case, ref):
 
 
 def drive_h2(case, ref):
-    hw = H2World("regular", opts=opts_of(case), policy=make_policy(case), snap=h1.http_snap)
+    win = case.get("window")  # [initial stream window of the HTTP/2 client, size of each later WINDOW_UPDATE]
+    kw = {}
+    if win:
+        import h2.settings
+
+        kw = dict(peer_settings={h2.settings.SettingCodes.INITIAL_WINDOW_SIZE: win[0]}, auto_release=False)
+    hw = H2World("regular", opts=opts_of(case), policy=make_policy(case), snap=h1.http_snap, **kw)
     w = hw.w
     obs = Obs()
     n = sum(case["parts"])
@@ -414,6 +420,14 @@ def drive_h2(case, ref):
                 e.r.eof = True
                 w.server_eof(e)
             hw.sync()
+            if win:
+                # the whole response has arrived at the proxy; the client now re-opens its window step by step
+                for _ in range(4 * n + 8):
+                    st_ = hw.stream(sid)
+                    if st_["ended"] or st_["reset"] is not None or hw.peer.conn_error:
+                        break
+                    if not hw.release_step(sid, win[1]):
+                        break
         st = dict(hw.stream(sid))
         hw.close_out()
         res.update(h2=st, h2_error=hw.peer.conn_error, servers=[s.w.data for s in w.servers], hooks=[n_ for n_, _ in w.hooks],
@@ -531,7 +545,7 @@ def judge(case, ref, feats, res, t: Tally, verbose):
     held = [(j, b) for j, b in enumerate(obs.buf) if j >= start and b != 0]
     if not case["store"]:
         t.judge("not_buffered_while_streaming", not held, feats, case, "body buffer empty once streaming", {"held(chunk_index,len)": held[:4]})
-    if ref["kind"] != "buffer" and not case.get("coalesce"):
+    if ref["kind"] != "buffer" and not case.get("coalesce") and not case.get("window"):
         late = None
         for j in range(start, len(obs.peer)):
             want = b"".join(p for ps in per[: j + 1] for p in ps)
@@ -623,6 +637,33 @@ def cases(tier):
                                             out.append(dict(base, coalesce=True))
                                         if proto == "h1" and d == "req" and addon in ("none", "true") and len(parts) <= 2 and variants:
                                             out.append(dict(base, expect=True))
+    out += window_cases(tier)
+    return out
+
+
+def window_cases(tier):
+    """HTTP/2 client whose stream window is smaller than the body: the proxy must hold back what does not fit and hand it
+    out, in order, as the client re-opens the window in steps (smaller than, equal to, larger than a buffered chunk)"""
+    out = []
+    windows = [[2, 2], [3, 1], [4, 5]] if tier == "quick" else [[1, 1], [2, 2], [3, 1], [4, 5], [5, 3]]
+    sizes = [9] if tier == "quick" else [6, 9]
+    for S in ("-", "3"):
+        for store in (False, True):
+            for addon in (("true", "gen") if tier == "quick" else ("none", "true", "upper", "list", "gen", "bracket")):
+                if addon == "none" and S == "-":
+                    continue
+                if tier == "quick" and store and addon != "gen":
+                    continue
+                for fr in ("cl", "chunked", "eof"):
+                    if addon == "bracket" and fr == "cl":
+                        continue
+                    if tier == "quick" and fr == "eof":
+                        continue
+                    for n in sizes:
+                        pls = [p for p in compositions(n, 3) if len(p) >= 2 and (tier != "quick" or len(p) == 2 or p == [3, 3, 3])]
+                        for parts in pls:
+                            for win in windows:
+                                out.append({"dir": "resp", "proto": "h2", "framing": fr, "L": "-", "S": S, "store": store, "addon": addon, "parts": parts, "window": win})
     return out
 
 
@@ -657,6 +698,7 @@ def run(ctx):
         "addon_stream": list(ADDONS),
         "sizes": "0, 1, L-1, L, L+1, 2L, S, S+1 (1k: 1023, 1024, 1025, 2048)", "max_parts": ctx.pick(2, 3),
         "chunking": "every composition into <= max_parts parts for n <= 6; for 7 <= n <= 12 every composition into <= 2 parts plus the 3-part ones with a cut within 1 of a threshold; 8 fixed splits for n >= 1023; h1 additionally all parts in one TCP segment; Expect: 100-continue variant",
+        "h2_client_flow_control": "responses streamed to an HTTP/2 client whose INITIAL_WINDOW_SIZE is [2..5] and which re-opens the window in steps of [1..5] bytes after the whole response reached the proxy (sizes 6/9, every composition into 2-3 parts)",
         "quick_tier": "sub-product (see _quick_keeps): every value of every dimension occurs; thorough is the full product",
         "cases": len(cs),
     }
